@@ -756,6 +756,9 @@ func (s String) Split(args Tuple, kwargs StringDict) (Object, error) {
 	)
 	switch v := pyval.(type) {
 	case String:
+		if len(v) == 0 {
+			return nil, ExceptionNewf(ValueError, "empty separator")
+		}
 		n := -1 // a negative maxsplit means no limit
 		if max >= 0 && int(max) < math.MaxInt {
 			n = int(max) + 1
